@@ -329,6 +329,23 @@ def run(ctx):
     # recursion into children happens on both branches
     rs = calls(sr, r'impl Element>::sort$')
     C.check(len(rs) == 2, 'C14-FLOW-refill', 'descends-into-children-on-both-branches', 'sort no longer descends into the child elements on both the sorting and the non-sorting branch (%d calls)' % len(rs))
+    # ... into EVERY child: each descent is inside a loop that walks a list (the content list, or the vector collected from it)
+    from flow import deep_sources
+    for i, p_ in enumerate(rs):
+        loops = [(h, body) for h, body in sr.natural_loops() if p_[0] in body]
+        okl = False
+        for h, body in loops:
+            for q, t in sr.iter_calls():
+                if q[0] in body and call_matches(t, r'Iterator>?::next$'):
+                    n_, c_, f_ = deep_sources(sr, t['args'][0], depth=12)
+                    if 'ElementRaw.content' in f_ or any(c.endswith('IntoIterator>::into_iter') or c.endswith('::iter') or c.endswith('::iter_mut') for c in c_):
+                        okl = True
+        C.check(okl, 'C14-FLOW-refill', 'descends-into-every-child#%d' % i, 'sort descends into a single child (e.g. content.first()) instead of walking all children: below an ordered container only the first child is sorted, the result then depends on the initial order of the others',
+                sr.where(p_), sample={'fn': 'ElementRaw::sort', 'descent_in_loop_over_children': okl} if i == 0 else None)
+    # sorting never fails: the closure of sort()/cmp has no undischarged panic site (same ledger as C12, restricted to this closure)
+    C.rule('C14-LEDGER-panic', 'every panic-capable operation reachable from Element::sort / ElementRaw::sort / <Element as Ord>::cmp is discharged (automatic rule or reviewed ledger entry with its guard facts)')
+    import ledger as LG
+    LG.run_ledger(C, P, 'C14-LEDGER-panic', [es.id, sr.id, P.get('<Element as Ord>::cmp').id], 'sort()')
     C.rule('C14-SIB-total', 'Element::cmp is a lexicographic chain of per-element key comparisons: no branch on a predicate relating both operands other than the Equal-test of a stage result (stages with optional keys are enumerated as evidence)')
     total_order_rules(C, P)
     return C.finish('Narrow structural clauses: sorting only permutes the content list (write-set), never reorders ordered types, re-inserts exactly the handles it removed, compares specification position first. '
